@@ -134,8 +134,14 @@ pub fn repl_scripted_line() -> Option<String> {
     }
     std::env::var_os("P2SH_VERIF_REPL_STDIN")?;
     let n = COUNT.with(|c| c.replace(c.get() + 1));
-    println!("\x1e{}", n);
-    eprintln!("\x1e{}", n);
+    // a stream that cannot be written (a driver may point one at a full
+    // device on purpose) must not stop the session
+    {
+        use std::io::Write;
+        let _ = writeln!(std::io::stdout(), "\x1e{}", n);
+        let _ = std::io::stdout().flush();
+        let _ = writeln!(std::io::stderr(), "\x1e{}", n);
+    }
     let mut line = String::new();
     match std::io::stdin().read_line(&mut line) {
         Ok(0) | Err(_) => Some("quit".to_string()),
